@@ -150,11 +150,28 @@ def failed_build_family(chk, sess, n):
             chk.count(("fb", i) if any("cancelled" in l for l in r["out"]) else None, n=sum(1 for l in r["out"] if l.startswith("build ")))
 
 
+def drain_completions(chk, sess):
+    """Completions arriving while the engine drains a cancellation (see c05.drain_family): every later build must equal a brand-new engine."""
+    import props.c05 as c05
+    def go(L, tag, origin):
+        r = sess.run(L, tag)
+        if r["rc"] != 0:
+            chk.violation("driver-crash", "engine_driver exited with status %s" % r["rc"], dict(scenario=L, stderr=r["err"][-1500:], origin=origin), found_input=True)
+            return
+        bad = K.oracle_c01(K.parse_impl(r["out"]))
+        if bad and not c05.window_suspects_in(L, r["out"]):
+            chk.violation(bad[0][0] + "-after-failed-build", bad[0][1], dict(scenario=L, implementation=r["out"], oracle="fresh engine", origin=origin), found_input=True,
+                          broken="incremental == fresh after a failed build")
+        chk.count(("drain", tag, origin) if any("cancelled" in l for l in r["out"]) else None, n=sum(1 for l in r["out"] if l.startswith("build ")))
+    c05.drain_family(go)
+
+
 def run(chk):
     sess = K.Session(chk)
     pr = chk.proof_gate()
     n = chk.n(150, 6000)
     failed_build_family(chk, sess, chk.n(25, 800))
+    drain_completions(chk, sess)
     for nn in range(0, 14):        # corpus: a failed build must persist its iteration (stale for ever after a restart otherwise)
         one_history(chk, sess, ["db 1", "rule 0 sig=0 obs=1", "rule 4 sig=0 obs=0 req=0", "rule 5 sig=0 obs=0 req=4", "rule 7 sig=0 obs=0 req=5", "set 0 1", "build 7", "set 0 2",
                                 "build 7 sched=sync cancel=cb:%d" % nn, "restart", "set 0 3", "build 7", "build 5"], "corpus-fb", "corpus iteration-persisted", model=False)
